@@ -65,8 +65,107 @@ fn expected_port(pre: u8, pre_remote: Option<PortIdentity>, dec: u8, s1_remote: 
     }
 }
 
+// @harness c05_bmca_one_port
+// @props C05:quick C08:quick C11:quick C12:quick C03:thorough C17:quick
+// @tier quick
+// @variant lists2
+// @stubbing yes
+// @timeout 2400
+// @mem 8
+// @functions PtpInstanceState::bmca, Port::calculate_best_local_announce_message, Port::best_local_announce_message_for_bmca, Bmca::find_best_announce_message, Bmca::calculate_recommended_state, Port::set_recommended_state, Port::set_recommended_port_state, Port::set_forced_port_state, Port::step_announce_age
+// @bounds single-port instance; own data set fully symbolic (priority1, class, accuracy, variance, priority2, slave-only); the port: arbitrary prior state (all five, Slave with arbitrary remote and slots), master-only flag, delay mechanism, multiport-disable age, and Erbest = none or one fully symbolic qualified Announce (all GM attributes, identities, stepsRemoved < 255, flags, utc offset, time source, age); BMCA interval 1 s, announce interval 1 s
+// @assume Erbest of each port comes from the stub contract of take_best_port_announce_message (bmca/mod.rs: take_stub); the foreign-master list itself is outside the claim (C06)
+// @assume core::mem::swap replaced by a loop-free equivalent (common.rs: swap_stub)
+// @assume oracle: reference comparison/decision (refbmca.rs) + statime's documented port-state rules (expected_port); timePropertiesDS is not predicted for M1/M2 (the standard leaves it to the local time source)
+// @note the one-port instance of c05_bmca_two_ports (thorough tier): Ebest = Erbest of the only port if it is eligible; decisions M1/M2/M3/P1/S1 and their data-set, state, timer and ageing consequences
+#[kani::proof]
+#[kani::unwind(9)]
+#[kani::stub(crate::bmc::bmca::Bmca::take_best_port_announce_message, crate::bmc::bmca::verif_bmca::take_stub)]
+#[kani::stub(core::mem::swap, crate::port::verif_port::common::swap_stub)]
+fn c05_bmca_one_port() {
+    let state = any_state(0);
+    state.poke().default_ds.number_ports = 1;
+    let mut c1 = PortCfg::any();
+    c1.port_number = 1;
+    let s1 = any_port_state(any_port_identity());
+    let mut p1 = mk_inbmca(&state, c1, RecClock::quiet(), any_filter_cfg(), s1);
+    set_multiport(&mut p1, if kani::any() { Some(any_duration_bits(64)) } else { None });
+    let v1 = view(&p1);
+    let pre_default = state.peek().default_ds;
+    let pre_current = state.peek().current_ds;
+    let pre_parent = state.peek().parent_ds.clone();
+    let pre_tp = state.peek().time_properties_ds;
+    let slave_only = pre_default.slave_only;
+    let step = Duration::from_secs(1);
+    {
+        let mut ports = [&mut p1];
+        state.with_mut(|s| s.bmca(&mut ports, step));
+    }
+    assert!(state.is_free() && state.mut_sections.get() == 1 && state.ref_sections.get() == 0, "C17: BMCA must run inside one exclusive section without re-locking");
+    let e1 = cand(local_best(&p1), !c1.master_only && v1.code != ST_FAULTY);
+    let ebest: u8 = if e1.eligible { 1 } else { 0 };
+    let d0 = ref_of_default(&pre_default);
+    let eb_ds = if ebest == 1 { Some(&e1.ds) } else { None };
+    let dec1 = ref_decision(&d0, eb_ds, if e1.present { Some(&e1.ds) } else { None }, ebest == 1, v1.code == ST_LISTENING);
+    let r1 = e1.msg.map(|m| m.header.source_port_identity);
+    let x1 = expected_port(v1.code, v1.remote, dec1, r1, slave_only, v1.multiport.is_some());
+    let w1 = view(&p1);
+    assert!(w1.code == x1.0, "C05: port state after BMCA differs from the prescribed state");
+    if w1.code == ST_SLAVE && dec1 == DEC_S1 { assert!(w1.remote == r1 && (!x1.1 || w1.slots_empty), "C05: slave port does not track the selected parent"); }
+    if dec1 == DEC_S1 { assert!(ebest == 1 && !c1.master_only && v1.code != ST_FAULTY, "C08: S1 for a master-only or faulty port"); }
+    if c1.master_only && v1.code != ST_SLAVE { assert!(w1.code != ST_SLAVE, "C08: master-only port became slave"); }
+    if slave_only { assert!(w1.code != ST_MASTER || dec1 == DEC_NONE, "C08: slave-only instance kept a master port through a BMCA decision"); }
+    let t1 = take_pending(&mut p1);
+    let timers_ok = |x: (u8, bool, u8), t: &Drained| -> bool {
+        match x.2 {
+            0 => t.none(),
+            1 => t.n == 2 && t.reset_receipt == 1 && t.reset_delay == 1 && t.dur_delay.as_secs() == 0,
+            2 => t.n == 1 && t.reset_receipt == 1,
+            _ => t.n == 2 && t.reset_announce == 1 && t.reset_sync == 1 && t.dur_announce.as_secs() == 0 && t.dur_sync.as_secs() == 0,
+        }
+    };
+    assert!(timers_ok(x1, &t1), "C12: state change without the timers that keep the new state alive");
+    let post = state.peek();
+    assert!(post.default_ds == pre_default);
+    if dec1 == DEC_S1 {
+        let m = e1.msg.unwrap();
+        assert!(post.current_ds.steps_removed == m.steps_removed + 1, "C05/C11: stepsRemoved != parent's + 1");
+        assert!(post.parent_ds.parent_port_identity == m.header.source_port_identity
+            && post.parent_ds.grandmaster_identity == m.grandmaster_identity
+            && post.parent_ds.grandmaster_clock_quality == m.grandmaster_clock_quality
+            && post.parent_ds.grandmaster_priority_1 == m.grandmaster_priority_1
+            && post.parent_ds.grandmaster_priority_2 == m.grandmaster_priority_2, "C05/C11: parentDS != attributes announced by the selected parent");
+        let tp = post.time_properties_ds;
+        assert!(tp.current_utc_offset == (if m.header.current_utc_offset_valid { Some(m.current_utc_offset) } else { None })
+            && tp.ptp_timescale == m.header.ptp_timescale && tp.time_traceable == m.header.time_tracable
+            && tp.frequency_traceable == m.header.frequency_tracable && tp.time_source == m.time_source, "C05/C11: timePropertiesDS != parent's Announce");
+    } else if dec1 == DEC_M1 || dec1 == DEC_M2 {
+        assert!(post.current_ds.steps_removed == 0, "C05/C11: grandmaster must advertise stepsRemoved 0");
+        assert!(post.parent_ds.parent_port_identity == PortIdentity { clock_identity: pre_default.clock_identity, port_number: 0 }
+            && post.parent_ds.grandmaster_identity == pre_default.clock_identity
+            && post.parent_ds.grandmaster_clock_quality == pre_default.clock_quality
+            && post.parent_ds.grandmaster_priority_1 == pre_default.priority_1
+            && post.parent_ds.grandmaster_priority_2 == pre_default.priority_2, "C05/C11: parentDS != own attributes while grandmaster");
+        assert!(post.path_trace_ds.list.len() == 0);
+    } else {
+        assert!(post.current_ds == pre_current && post.parent_ds == pre_parent && post.time_properties_ds == pre_tp, "C05: data sets changed without an M1/M2/S1 decision");
+    }
+    assert!(w1.clock_cmds == 0);
+    let aged = |pre: Option<Duration>| -> Option<Duration> {
+        match pre { Some(a) => { let n = a + step; if n < Duration::from_secs(1) { Some(n) } else { None } } None => None }
+    };
+    assert!(w1.multiport == aged(v1.multiport), "C12: multiport-disable age not advanced by the BMCA interval / not cleared after one announce interval");
+    kani::cover!(dec1 == DEC_S1 && w1.code == ST_SLAVE && v1.code != ST_SLAVE, "port becomes slave");
+    kani::cover!(dec1 == DEC_M1, "low class: M1");
+    kani::cover!(dec1 == DEC_M2 && w1.code == ST_MASTER, "grandmaster");
+    kani::cover!(dec1 == DEC_P1, "passive beside a better low-class master");
+    kani::cover!(slave_only && v1.code == ST_MASTER && w1.code == ST_LISTENING, "run-time slave-only demotes a master");
+    kani::cover!(dec1 == DEC_NONE, "listening port without Erbest stays");
+    core::mem::forget(p1);
+}
+
 // @harness c05_bmca_two_ports
-// @props C05 C08 C11 C12 C03 C17
+// @props C05:thorough C08:thorough C11:thorough C12:thorough C03:thorough C17:thorough
 // @tier quick
 // @variant lists2
 // @stubbing yes
@@ -200,7 +299,7 @@ fn c05_bmca_two_ports() {
 }
 
 // @harness c12_new_port_base_case
-// @props C12 C03:thorough C17:thorough
+// @props C12:quick C03:thorough C17:quick
 // @tier quick
 // @variant lists2
 // @stubbing yes
